@@ -55,8 +55,11 @@ CONSTANTS Sides,     \* subset of {"server", "client"}: requests / responses are
    maxcuts  reads that end before the end of their message, over the
             connection (NoBound: any number)
    mode     where such a read may end: "all" offsets | structural boundaries
-            "pm2" (+-2) | "pm1" (+-1) | "bnd" (+-0) | "bytes" (every read is one
-            byte) | "bytesrest" (single bytes, then the rest in one read)
+            "pm2" (+-2) | "pm1" (+-1) | "bnd" (+-0) | "key" (inside the first
+            line's CRLF, inside / behind the header terminator, behind the last
+            chunk's size line, behind the first / before the last byte) |
+            "bytes" (every read is one byte) | "bytesrest" (single bytes, then
+            the rest in one read)
    keep     keep every emitted line in `out` (small plans only)               *)
 NoBound == -1
 NoDefects == {}
@@ -157,10 +160,11 @@ Plan(name, pool, maxmsgs, maxcuts, mode, keep) ==
 (* exhaustive checking of the intended algorithm (with VIEW) *)
 PlansMC == {Plan("bnd", "Selected", 1, NoBound, "bnd", FALSE), Plan("all", "One", 1, NoBound, "all", FALSE),
             Plan("seq", "Two", 2, NoBound, "bnd", FALSE)}
-PlansMCThorough == {Plan("all", "Few", 1, NoBound, "all", FALSE),
+PlansMCThorough == {Plan("all", "Two", 1, NoBound, "all", FALSE),
                     Plan("pm2", "Selected", 1, NoBound, "pm2", FALSE),
                     Plan("grammar", "Everything", 1, NoBound, "bnd", FALSE),
-                    Plan("seq", "Few", 3, NoBound, "bnd", FALSE)}
+                    Plan("seq", "Few", 3, NoBound, "key", FALSE),
+                    Plan("seq2", "Two", 3, NoBound, "bnd", FALSE)}
 PlansPinned == {Plan("all", "Selected", 1, NoBound, "all", FALSE)}
 (* histories replayed on the real code (no VIEW: every state is a history) *)
 PlansHist == {Plan("single", "Selected", 1, 1, "all", TRUE),            \* every single cut offset
@@ -173,9 +177,10 @@ PlansHistThorough == {Plan("single", "Selected", 1, 1, "all", TRUE),
                       Plan("bytes", "Selected", 1, NoBound, "bytes", FALSE),
                       Plan("bytesrest", "Few", 1, NoBound, "bytesrest", FALSE),   \* j single bytes, then the rest in one read
                       Plan("pair", "Selected", 1, 2, "pm2", FALSE),
-                      Plan("edge", "Selected", 1, 3, "bnd", FALSE),
-                      Plan("seq", "Few", 3, 1, "bnd", FALSE),
-                      Plan("seq2", "Two", 3, 2, "bnd", FALSE)}
+                      Plan("edge", "Few", 1, 3, "bnd", FALSE),
+                      Plan("seq", "Few", 2, 2, "key", FALSE),
+                      Plan("seq2", "Two", 3, 2, "key", FALSE),
+                      Plan("seq3", "Two", 3, 1, "bnd", FALSE)}
 
 -----------------------------------------------------------------------------
 VARIABLES side,     \* the side under test
@@ -233,6 +238,8 @@ Targets(mode, l) ==
       W == CASE mode = "pm2" -> {x + d : x \in B, d \in -2..2}
              [] mode = "pm1" -> {x + d : x \in B, d \in -1..1}
              [] mode = "bnd" -> B
+             [] mode = "key" -> {1, l.line + 1, HdrEnd(l) - 1, HdrEnd(l), Total(l) - 1}
+                                \cup (IF l.body = "chunked" THEN {LastSizeEnd(l)} ELSE {})
              [] OTHER -> 1..Total(l)
   IN {t \in W : t >= 1 /\ t < Total(l)}
 
